@@ -11,7 +11,7 @@ from core import *
 from c03 import py_round, _fr, _err
 
 NEEDS = ["Solver", "SolverProofs", "Interp", "Inputs", "InputsProofs", "Corr"]
-GUARDS = ["depth_ok"]
+GUARDS = []
 ERRMAP = {"IndexError": "ErrIndex", "ZeroDivisionError": "ErrZeroDiv", "ValueError": "ErrShape", "AttributeError": "ErrAttribute"}
 
 # ---------------------------------------------------------------------------------------------- impl side (worker)
@@ -98,8 +98,8 @@ def impl(case):
 def gen_inputs(rng, nn, vectorize, N, allow_bad=True):
     inputs, used = [], set()
     for _ in range(rng.choice([0, 1, 1, 1, 2, 2, 3])):
-        nodes = "all" if rng.random() < 0.55 else rng.randrange(nn)
-        form = rng.randrange(4)
+        nodes = "all" if rng.random() < (0.55 if nn < 10 else 0.85) else rng.randrange(nn)
+        form = rng.randrange(8)
         r = rng.random()
         shape = "1d" if r < 0.5 else "col" if r < 0.7 else "2d"
         if shape == "2d" and (nodes != "all" or nn < 2 or (not vectorize and not (allow_bad and rng.random() < 0.15))):
@@ -123,13 +123,13 @@ def dedup_targets(case):
     case["inputs"] = keep
 
 def gen_net(rng, nn):
-    x0 = rng.sample([Fr(k, 2) for k in range(-6, 9) if k != 0], nn)
+    x0 = rng.sample([Fr(k, 2) for k in range(-8, 13) if k != 0], nn)
     W = [[Fr(0)] * nn for _ in range(nn)]
-    if nn > 1 and rng.random() < 0.5:
+    if 1 < nn < 10 and rng.random() < 0.5:
         for _ in range(rng.randint(1, 2)):
             i, j = rng.sample(range(nn), 2)
             W[i][j] = Fr(rng.choice([-2, -1, 1, 2, 1, Fr(1, 2)]))
-    names = rng.sample(range(10), nn)
+    names = rng.sample(range(30), nn)
     return x0, W, names
 
 def exact_ok(case):
@@ -190,12 +190,12 @@ def make_exact(case):
     return case
 
 def gen_fixed(rng):
-    nn = rng.choice([1, 2, 2, 3, 3])
+    nn = rng.choice([1, 2, 2, 3, 3]) if rng.random() < 0.9 else rng.choice([10, 11, 12])      # 1-D broadcast to >= 10 nodes (D85)
     dt = Fr(1, 2 ** rng.choice([0, 1, 2, 3]))
-    steps = rng.randint(2, 9)
+    steps = rng.randint(2, 9) if nn < 10 else rng.randint(2, 4)
     T = steps * dt
     vectorize = rng.random() < 0.6
-    depth = rng.choice([0, 0, 0, 1, 1, 2])
+    depth = rng.choice([0, 0, 0, 1, 1, 2, 2, 3])
     extra = rng.choice([0, 0, 0, 1, 3]) if rng.random() < 0.93 else -1          # a too short array: IndexError
     x0, W, names = gen_net(rng, nn)
     case = dict(kind="fixed", solver=rng.choice(["euler", "heun"]), vectorize=vectorize, depth=depth,
@@ -223,7 +223,7 @@ def gen_adaptive(rng):
             ts.append(h * rng.randint(0, N - 2) + h * Fr(rng.randint(1, 7), 8))   # strictly between
         else:
             ts.append(rng.choice([Fr(-1, 2), T, T + 1, T - h / 4, Fr(0)]))        # clamped / last interval
-    case = dict(kind="adaptive", solver="scipy", udef=str(rng.choice([0, 0, Fr(1, 2), 1, -1])), prelude=(not vectorize) and rng.random() < 0.3, vectorize=vectorize, depth=rng.choice([0, 0, 1]), T=str(T), dt=str(dt), nn=nn,
+    case = dict(kind="adaptive", solver="scipy", udef=str(rng.choice([0, 0, Fr(1, 2), 1, -1])), prelude=(not vectorize) and rng.random() < 0.3, vectorize=vectorize, depth=rng.choice([0, 0, 1, 2, 3]), T=str(T), dt=str(dt), nn=nn,
                 x0=[str(v) for v in x0], W=[[str(v) for v in r] for r in W], names=names, ts=[str(t) for t in ts],
                 inputs=gen_inputs(rng, nn, vectorize, N, allow_bad=False))
     dedup_targets(case)
@@ -257,7 +257,6 @@ Definition specO (c : tcase) : outcome :=
   else Rows (spec_run_inputs (sv c) (cT c) (cdt c) (cudef c) (cW c) (cin c) (cx0 c)).
 Definition okI (p : tcase * outcome) := outcome_eqb (implO (fst p)) (snd p).
 Definition okS (p : tcase * outcome) := outcome_eqb (specO (fst p)) (snd p).
-Definition g_depth (p : tcase * outcome) := depth_ok (cdepth (fst p)) (cin (fst p)).
 (* forms the implementation accepts, arrays long enough, >= 2 rows: outside, only model = code is demanded *)
 Definition g_scope (p : tcase * outcome) :=
   adaptive (fst p) || (forallb (input_ok (vec (fst p)) (rnd (cT (fst p) / cdt (fst p)))) (cin (fst p)) &&
@@ -282,16 +281,16 @@ def coq_case(case, out):
     return f"({t}, {coq_outcome(out)})"
 
 def model_compare(ctx, cases, outs, tag):
-    res = [[], [], [], []]
+    res = [[], [], []]
     shard = 80
     for s in range(0, len(cases), shard):
         terms = [coq_case(c, o) for c, o in zip(cases[s:s + shard], outs[s:s + shard])]
         body = ("Definition cases : list (tcase * outcome) := " + clist(terms) + ".\n" +
-                "".join(f"Eval vm_compute in (mismatches {fn} cases).\n" for fn in ("okI", "okS", "g_depth", "g_scope")))
+                "".join(f"Eval vm_compute in (mismatches {fn} cases).\n" for fn in ("okI", "okS", "g_scope")))
         out = coq_eval(ctx, f"c08_{tag}_{s}", HEADER, body)
         ls = parse_nat_lists(out)
-        assert len(ls) == 4, out[:400]
-        for k in range(4):
+        assert len(ls) == 3, out[:400]
+        for k in range(3):
             res[k] += [s + i for i in ls[k]]
     return res
 
@@ -313,7 +312,7 @@ def fails(ctx, case, tag):
     if not known_outcome(r):
         return True, r
     res = model_compare(ctx, [case], [r], tag)
-    return bool(res[1]) and not [i for i in res[3] if i not in res[2]], r
+    return bool(res[1]) and not res[2], r
 
 def shrink(ctx, case):
     best, budget = case, 10
@@ -355,11 +354,10 @@ def check(ctx):
     crashed = [i for i, r in enumerate(outs) if not known_outcome(r)]
     good = [i for i in range(len(cases)) if i not in crashed]
     res = model_compare(ctx, [cases[i] for i in good], [outs[i] for i in good], "main")
-    badI, badS, nodepth, noscope = [[good[i] for i in l] for l in res]
-    # depth >= 2 is the known loud class D30; unaccepted forms / too short arrays are outside the property: model = code only
-    noscope = [i for i in noscope if i not in nodepth]
+    badI, badS, noscope = [[good[i] for i in l] for l in res]
+    # unaccepted forms / too short arrays (IndexError at every depth) are outside the property: model = code only
     badS = [i for i in badS if i not in noscope]
-    guard_viol = {i: ["depth_ok"] for i in nodepth if i not in badI}
+    guard_viol = {}
     ctx.note(f"E1: {len(cases)} cases ({sum(1 for c in cases if c['kind'] == 'fixed')} run(euler/heun, inputs), "
              f"{sum(1 for c in cases if c['kind'] == 'adaptive')} get_run_func(scipy, inputs)); impl-vs-Impl mismatches {len(badI)}, "
              f"impl-vs-Spec mismatches {len(badS)} (of which outside the guard: {sum(1 for i in badS if i in guard_viol)}), "
@@ -379,7 +377,8 @@ def check(ctx):
         outcome_hist[k] = outcome_hist.get(k, 0) + 1
     hist = dict(kind=dict(fixed=sum(1 for c in cases if c["kind"] == "fixed"), adaptive=sum(1 for c in cases if c["kind"] == "adaptive")),
                 solver={s: sum(1 for c in cases if c["solver"] == s) for s in ("euler", "heun", "scipy")},
-                vectorize=sum(1 for c in cases if c["vectorize"]), depth={str(d): sum(1 for c in cases if c["depth"] == d) for d in (0, 1, 2)},
+                vectorize=sum(1 for c in cases if c["vectorize"]), depth={str(d): sum(1 for c in cases if c["depth"] == d) for d in (0, 1, 2, 3)},
+                broadcast_to_10_or_more=sum(1 for c in cases if c["nn"] >= 10 and any(i["nodes"] == "all" for i in c["inputs"])),
                 n_inputs={str(k): sum(1 for c in cases if len(c["inputs"]) == k) for k in range(4)},
                 shapes={s: sum(1 for c in cases for i in c["inputs"] if i["shape"] == s) for s in ("1d", "col", "2d")},
                 nonzero_default=sum(1 for c in cases if Fr(c.get("udef", 0)) != 0), with_prelude=sum(1 for c in cases if c.get("prelude")),
@@ -388,7 +387,7 @@ def check(ctx):
                 with_edges=sum(1 for c in cases if any(Fr(w) != 0 for r in c["W"] for w in r)),
                 two_sources_on_one_unit=sum(1 for c in cases if any(sum(1 for i in c["inputs"] if u in addressed(c, i)) +
                                                                     sum(1 for w in c["W"][u] if Fr(w) != 0) >= 2 for u in range(c["nn"]))),
-                guard_false=dict(depth_ok=len(nodepth), out_of_scope_forms=len(noscope)), real_outcomes=outcome_hist)
+                guard_false=dict(out_of_scope_forms=len(noscope)), real_outcomes=outcome_hist)
     write_evidence(ctx, evaluations=len(cases), distinct_nontrivial=len(nt),
                    rule="a case is non-trivial when some input is non-constant and (>= 2 nodes are addressed by it or the case has >= 2 inputs) "
                         "(DESIGN summary table); distinct = distinct canonical JSON. Networks of 1-3 integrators with shuffled node names, optional weighted "
